@@ -137,42 +137,69 @@ def _wavfile(kind, rate):
 GAINS = {0: 0, 1980.0: 0, 2000.0: -80, 4000.0: -80, 4040.4: 0}
 
 
+def _as_kind(x, kind):
+    """the same number handed over as another legal kind of argument"""
+    if kind in ('int', 'npint') and float(x) != int(x):
+        kind = 'py'
+    return {'int': int, 'npint': np.int64, 'np64': np.float64, 'np32': np.float32, 'py': float}[kind](x)
+
+
+def _weighting(P):
+    w = P.get('weighting')
+    return float('nan') if w == 'nan' else w            # np.nan and None both mean "no weighting"
+
+
+def _mc(P):
+    mc = P.get('mc', 'inf')
+    return np.inf if mc == 'inf' else None if mc == 'none' else mc
+
+
 def _build(case, level, pol):
     """one realisation of the stimulus of the case; returns a 1-D float array"""
     from psiaudio import stim
     t, fs, P = case['type'], case['fs'], case.get('par', {})
+    K = case.get('kinds', {})
+    level = _as_kind(level, K.get('level', 'py'))
+    if pol is not None:
+        pol = {'int': int, 'float': float, 'npint': np.int8}[K.get('pol', 'int')](pol)
+    if K.get('fs') == 'int' and fs == int(fs):
+        fs = int(fs)
     cal = _mkcal(case['cal'])
     kw = {} if pol is None else {'polarity': pol}
     if t == 'tone':
         return stim.tone(fs, P['f'], level, P['phase'], calibration=cal, samples=P['n'], offset=P.get('offset', 0), **kw)
     if t == 'tone_duration':
-        return stim.tone(fs, P['f'], level, P['phase'], calibration=cal, duration=P['n'] / fs, **kw)
+        # seconds-based twin, also with a duration that is not a whole number of samples (rounds to n)
+        return stim.tone(fs, P['f'], level, P['phase'], calibration=cal, duration=(P['n'] + P.get('frac', 0.0)) / fs, **kw)
     if t == 'ToneFactory':
         f = stim.ToneFactory(fs, P['f'], level, P['phase'], calibration=cal, **kw)
         return np.concatenate([f.next(P['n'] // 3), f.next(P['n'] - P['n'] // 3)])
     if t == 'ramped_tone':
         return stim.ramped_tone(fs, P['f'], level, P['n'] / fs, rise_time=P['n'] / fs / 4, calibration=cal)
     if t == 'sam_tone':
-        return stim.sam_tone(fs, P['fc'], P['fm'], level, phase=P['phase'], calibration=cal, samples=P['n'],
-                             eq_power=P['eq_power'], equalize=P['equalize'], **kw)
+        n_kw = {'duration': (P['n'] + P.get('frac', 0.0)) / fs} if P.get('use_duration') else {'samples': P['n']}
+        return stim.sam_tone(fs, P['fc'], P['fm'], level, phase=P['phase'], phase_lb=P.get('phase_lb', 0), phase_ub=P.get('phase_ub', 0),
+                             calibration=cal, eq_power=P['eq_power'], equalize=P['equalize'], **n_kw, **kw)
     if t == 'SAMToneFactory':
-        f = stim.SAMToneFactory(fs, P['fc'], P['fm'], level, phase=P['phase'], calibration=cal, eq_power=P['eq_power'],
+        f = stim.SAMToneFactory(fs, P['fc'], P['fm'], level, phase=P['phase'], phase_lb=P.get('phase_lb', 0),
+                                phase_ub=P.get('phase_ub', 0), calibration=cal, eq_power=P['eq_power'],
                                 equalize=P['equalize'], **kw)
         return np.concatenate([f.next(P['n'] // 2), f.next(P['n'] - P['n'] // 2)])
     if t == 'chirp':
         return stim.chirp(fs, P['f0'], P['f1'], P['dur'], level, calibration=cal, window=P['window'], equalize=P['equalize'],
-                          audiogram_weighting=P.get('weighting'))
+                          max_correction=_mc(P), audiogram_weighting=_weighting(P))
     if t == 'ChirpFactory':
-        return stim.ChirpFactory(fs, P['f0'], P['f1'], P['dur'], level, cal, window=P['window'], equalize=P['equalize']).next(
-            int(fs * P['dur']))
+        return stim.ChirpFactory(fs, P['f0'], P['f1'], P['dur'], level, cal, window=P['window'], equalize=P['equalize'],
+                                 max_correction=_mc(P), audiogram_weighting=_weighting(P)).next(int(fs * P['dur']))
     if t == 'click':
         return stim.ClickFactory(fs, P['dur'], level, pol, cal).waveform
     if t == 'bandlimited_click':
         return stim.bandlimited_click(fs, P['flb'], P['fub'], P['window'], level, level_unit=P['unit'], calibration=cal,
-                                      equalize=P['equalize'], audiogram_weighting=P.get('weighting'))
+                                      equalize=P['equalize'], max_correction=_mc(P), audiogram_weighting=_weighting(P))
     if t == 'BandlimitedClickFactory':
         return stim.BandlimitedClickFactory(fs, P['flb'], P['fub'], P['window'], level, calibration=cal,
-                                            equalize=P['equalize']).waveform
+                                            equalize=P['equalize'], max_correction=_mc(P),
+                                            audiogram_weighting=_weighting(P)).waveform
     if t == 'broadband_noise':
         return stim.broadband_noise(fs, level, P['dur'], seed=P['seed'], calibration=cal, **kw)
     if t == 'BroadbandNoiseFactory':
@@ -195,6 +222,19 @@ def _build(case, level, pol):
                                             window=P.get('window', 'hann'),
                                             max_correction=np.inf if P.get('max_correction') is None else P['max_correction'], **kw)
         return f.next(int(round(P['dur'] * fs)))
+    if t == 'bandlimited_fir_noise_fn':
+        # the function twin of the FIR factory (its own defaults: equalize=True, seed=1)
+        return stim.bandlimited_fir_noise(fs, level, P['fl'], P['fh'], P['dur'], ntaps=P['ntaps'], seed=P['seed'], calibration=cal,
+                                          equalize=P['equalize'], window=P.get('window', 'hann'), **kw)
+    if t == 'ShapedNoiseFactory':
+        gains = dict(GAINS)
+        gains[fs / 2] = 0
+        f = stim.ShapedNoiseFactory(fs, level, gains, ntaps=P['ntaps'], window=P.get('window', 'hann'), seed=P['seed'],
+                                    calibration=cal, **kw)
+        n = int(round(P['dur'] * fs))
+        first = f.next(n // 2)
+        f.reset()
+        return np.concatenate([first, f.next(n - n // 2)])
     if t == 'shaped_noise':
         gains = dict(GAINS)
         gains[fs / 2] = 0
@@ -223,7 +263,7 @@ def _build(case, level, pol):
     raise KeyError(t)
 
 
-HAS_POLARITY = {'BandlimitedNoiseFactory', 'tone', 'tone_duration', 'ToneFactory', 'sam_tone', 'SAMToneFactory', 'click', 'broadband_noise',
+HAS_POLARITY = {'BandlimitedNoiseFactory', 'bandlimited_fir_noise_fn', 'ShapedNoiseFactory', 'tone', 'tone_duration', 'ToneFactory', 'sam_tone', 'SAMToneFactory', 'click', 'broadband_noise',
                 'BroadbandNoiseFactory', 'bandlimited_noise', 'bandlimited_fir_noise', 'shaped_noise', 'notch_noise', 'cos2_tone',
                 'gate_noise', 'sam_env_noise', 'repeat_click'}
 # round-off of the arithmetic each stimulus uses, relative to the peak
@@ -254,11 +294,21 @@ def _impl_stim(case):
     pol = 1 if case['type'] in HAS_POLARITY else None
     nocal = case['cal'] is None
 
+    def scribble(a):
+        """the caller overwrites what it was handed (when it is allowed to): later realisations must not notice"""
+        if isinstance(a, np.ndarray) and a.flags.writeable:
+            a[...] = 12345.678
+    def take(level, polarity):
+        raw = _build(case, level, polarity)
+        out = np.array(raw, dtype=float)            # a private copy
+        scribble(raw)
+        return out
+
     def run():
-        y1 = np.asarray(_build(case, L, pol), dtype=float)
+        y1 = take(L, pol)
         # without calibration the level is an amplitude: the relation is homogeneity (level * c)
-        y2 = np.asarray(_build(case, L * 10 ** (d / 20) if nocal else L + d, pol), dtype=float)
-        y4 = np.asarray(_build(case, L * 10 if nocal else L + 20, pol), dtype=float)
+        y2 = take(L * 10 ** (d / 20) if nocal else L + d, pol)
+        y4 = take(L * 10 if nocal else L + 20, pol)
         res = {'n': [int(len(y1)), int(len(y2)), int(len(y4))], 'peak': float(np.max(np.abs(y1))) if len(y1) else 0.0,
                'finite': bool(np.all(np.isfinite(y1)) and np.all(np.isfinite(y2)))}
         if len(y1) == len(y2) == len(y4) and len(y1):
@@ -270,13 +320,14 @@ def _impl_stim(case):
             res['y1'] = [float(y1[i]) for i in idx]
             res['y4'] = [float(y4[i]) for i in idx]
         if pol is not None:
-            y3 = np.asarray(_build(case, L, -1), dtype=float)
+            y3 = take(L, -1)
             res['n_neg'] = int(len(y3))
             res['neg_exact'] = bool(len(y3) == len(y1) and np.array_equal(y3, -y1))
             res['zeros_kept'] = bool(len(y3) == len(y1) and np.array_equal(y3 == 0, y1 == 0))
             if len(y3) == len(y1) and len(y1):
                 res['y3'] = [float(y3[i]) for i in res.get('idx', _pick(len(y1)))]
         res['level'] = _measure(case, y1)
+        res['crest'] = float(np.max(np.abs(y1)) / np.sqrt(np.mean(y1 ** 2))) if len(y1) and np.any(y1) else None
         if case['type'] in ('bandlimited_noise', 'BandlimitedNoiseFactory'):
             res['kappa'] = _iir_roundoff(case, L, y1)
         return res
@@ -310,9 +361,12 @@ def _iir_roundoff(case, level, y):
 
 def _level_tol(case, res):
     """round-off of the arithmetic the stimulus uses, relative to the peak"""
+    tol = LEVEL_TOL.get(case['type'], 1e-12)
     if case['type'] in ('bandlimited_noise', 'BandlimitedNoiseFactory'):
-        return max(1e-12, 20 * res.get('kappa', 0.0))
-    return LEVEL_TOL.get(case['type'], 1e-12)
+        tol = max(1e-12, 20 * res.get('kappa', 0.0))
+    if case.get('kinds', {}).get('level') == 'np32':
+        tol = max(tol, 5e-6)                         # the scale factor of a float32 level is computed in float32
+    return tol
 
 
 def _measure(case, y):
@@ -323,15 +377,17 @@ def _measure(case, y):
     if cal is None or not len(y):
         return None
     L = case['L']
+    if t == 'ShapedNoiseFactory':
+        return None
     if t in ('broadband_noise', 'BroadbandNoiseFactory'):
         return {'what': 'rms', 'got': float(util.rms(y)), 'want': float(cal.get_mean_sf(0, fs, L)), 'tol_db': 1.0}
     if t == 'bandlimited_noise':
         return {'what': 'rms', 'got': float(util.rms(y)), 'want': float(cal.get_mean_sf(P['fl'], P['fh'], L)), 'tol_db': 1.0}
     if t == 'shaped_noise':
         return {'what': 'rms', 'got': float(util.rms(y)), 'want': float(cal.get_mean_sf(0, fs / 2, L)), 'tol_db': 1.0}
-    if t in ('chirp', 'ChirpFactory') and not P['equalize'] and not P.get('weighting'):
+    if t in ('chirp', 'ChirpFactory') and not P['equalize'] and P.get('weighting') in (None, 'nan'):
         return {'what': 'rms', 'got': float(util.rms(y)), 'want': float(cal.get_mean_sf(P['f0'], P['f1'], L)), 'tol_db': 0.5}
-    if t in ('bandlimited_click', 'BandlimitedClickFactory') and not P.get('weighting'):
+    if t in ('bandlimited_click', 'BandlimitedClickFactory') and P.get('weighting') in (None, 'nan') and P.get('mc', 'inf') in ('inf', 'none'):
         n1 = int(round(fs))
         if P.get('unit', 'rms') == 'peak':
             # peak unit: the peak-to-peak amplitude is the scale factor of the level (papr normalisation)
@@ -365,6 +421,10 @@ def _impl_rms(case):
     from psiaudio import stim, util
     cal = _mkcal(case['cal'])
     fs, N, L, pol = case['fs'], case['N'], case['L'], case['pol']
+    K = case.get('kinds', {})
+    Lf = L
+    L = _as_kind(L, K.get('level', 'py'))
+    pol = {'int': int, 'float': float, 'npint': np.int8}[K.get('pol', 'int')](pol)
     ints = bool(case.get('ints'))     # frequencies handed over as Python ints (integer-dtype frequency arrays inside)
 
     def fr(x):
@@ -391,19 +451,22 @@ def _impl_rms(case):
         else:
             y = stim.tone(fs, fr(f), L, case['phase'], pol, cal, samples=N, offset=case['offset'])
         r = float(util.rms(y))
-        return dict(extra, y=[float(v) for v in y[:8]], rms=r, sf=float(cal.get_sf(f, L)), db=float(cal.get_db(f, r)),
+        return dict(extra, y=[float(v) for v in y[:8]], rms=r, sf=float(cal.get_sf(f, Lf)), db=float(cal.get_db(f, r)),
                     csd_bin=float(np.abs(util.csd(y, detrend=None)[case['k']])), n=int(len(y)))
     fc, fm = case['kc'] * fs / N, case['km'] * fs / N
     if case.get('factory'):
-        y = stim.SAMToneFactory(fs, fr(fc), fr(fm), L, phase=case['phase'], polarity=pol, calibration=cal,
-                                eq_power=case['eq_power']).next(N)
+        y = stim.SAMToneFactory(fs, fr(fc), fr(fm), L, phase=case['phase'], phase_lb=case.get('phase_lb', 0),
+                                phase_ub=case.get('phase_ub', 0), polarity=pol, calibration=cal, eq_power=case['eq_power'],
+                                equalize=case.get('equalize', True)).next(N)
     else:
-        y = stim.sam_tone(fs, fr(fc), fr(fm), L, phase=case['phase'], polarity=pol, calibration=cal, samples=N,
-                          offset=case['offset'], eq_power=case['eq_power'])
+        y = stim.sam_tone(fs, fr(fc), fr(fm), L, phase=case['phase'], phase_lb=case.get('phase_lb', 0),
+                          phase_ub=case.get('phase_ub', 0), polarity=pol, calibration=cal, samples=N,
+                          offset=case['offset'], eq_power=case['eq_power'], equalize=case.get('equalize', True))
     c = np.abs(util.csd(y, detrend=None))
-    freqs = [fc - fm, fc, fc + fm]
+    # without equalization the carrier's scale factor serves the three components
+    freqs = [fc - fm, fc, fc + fm] if case.get('equalize', True) else [fc, fc, fc]
     # the expected scale factors are asked for one float frequency at a time
-    return dict(extra, y=[float(v) for v in y[:8]], rms=float(util.rms(y)), sf=[float(cal.get_sf(float(f), L)) for f in freqs],
+    return dict(extra, y=[float(v) for v in y[:8]], rms=float(util.rms(y)), sf=[float(cal.get_sf(float(f), Lf)) for f in freqs],
                 comp=[float(c[case['kc'] - case['km']]), float(c[case['kc']]), float(c[case['kc'] + case['km']])],
                 eq=float(stim.sam_eq_power(1)), db=float(cal.get_db(fc, float(util.rms(y)))), n=int(len(y)))
 
@@ -443,10 +506,45 @@ def _impl_filter(case):
             'a': [float(v) for v in f.a]}
 
 
+REJECTS = {
+    'sam_depth_half': lambda stim, cal: stim.sam_tone(100000.0, 8000.0, 100.0, 60.0, depth=0.5, calibration=cal, samples=50),
+    'sam_depth_zero': lambda stim, cal: stim.sam_tone(100000.0, 8000.0, 100.0, 60.0, depth=0, calibration=cal, samples=50),
+    'sam_depth_two': lambda stim, cal: stim.SAMToneFactory(100000.0, 8000.0, 100.0, 60.0, depth=2, calibration=cal).next(50),
+    'chirp_equalize_nocal': lambda stim, cal: stim.chirp(100000.0, 2000.0, 8000.0, 0.001, 1.0, calibration=None, equalize=True),
+    'click_equalize_nocal': lambda stim, cal: stim.bandlimited_click(100000.0, 2000.0, 8000.0, 0.002, 1.0, equalize=True),
+    'click_unit_unknown': lambda stim, cal: stim.bandlimited_click(100000.0, 2000.0, 8000.0, 0.002, 60.0, level_unit='average',
+                                                                  calibration=cal),
+    'broadband_equalize': lambda stim, cal: stim.BroadbandNoiseFactory(100000.0, 60.0, equalize=True, calibration=cal).next(5),
+    'tone_no_length': lambda stim, cal: stim.tone(100000.0, 1000.0, 60.0, calibration=cal),
+    'tone_two_lengths': lambda stim, cal: stim.tone(100000.0, 1000.0, 60.0, calibration=cal, samples=10, duration=0.0001),
+    'sam_two_lengths': lambda stim, cal: stim.sam_tone(100000.0, 8000.0, 100.0, 60.0, calibration=cal, samples=10, duration=0.0001),
+    'wav_normalization_unknown': lambda stim, cal: stim.load_wav(100000.0, _wavfile('i16', 100000.0), 60.0, cal, 'peak'),
+}
+ACCEPTS = {     # the neighbours of the rejected values that must be served
+    'sam_depth_one_float': lambda stim, cal: stim.sam_tone(100000.0, 8000.0, 100.0, 60.0, depth=1.0, calibration=cal, samples=50),
+    'sam_depth_one_int': lambda stim, cal: stim.sam_tone(100000.0, 8000.0, 100.0, 60.0, depth=1, calibration=cal, samples=50),
+}
+
+
+def _impl_reject(case):
+    from psiaudio import stim
+    cal = _mkcal(case['cal'])
+    fn = REJECTS.get(case['what']) or ACCEPTS[case['what']]
+    try:
+        out = fn(stim, cal)
+        return {'exc': None, 'n': int(len(out)), 'finite': bool(np.all(np.isfinite(out)))}
+    except Exception as e:               # which exception is part of what is observed
+        return {'exc': type(e).__name__, 'msg': str(e)[:100]}
+
+
 def impl(case):
     import warnings
     if case['kind'] == 'filter':
         return _impl_filter(case)
+    if case['kind'] == 'reject':
+        with warnings.catch_warnings():
+            warnings.simplefilter('ignore')
+            return _impl_reject(case)
     with warnings.catch_warnings():
         warnings.simplefilter('ignore')
         if case['kind'] == 'stim':
@@ -480,8 +578,10 @@ def _glue(case, res):
         i = np.arange(len(res['y']), dtype=float)
         suffix = '' if case['eq_power'] else '_noeq'
         tot = 0
-        for name, f, ph in (('sam_lb_sample', fc - fm, 0.0), ('sam_c_sample', fc, case['phase']), ('sam_ub_sample', fc + fm, 0.0)):
-            tot = tot + _gen(name + suffix, _sens_at(case, f), case['L'], float(case['pol']), i, float(case['offset']), fs, fc, fm,
+        eqz = case.get('equalize', True)
+        for name, f, ph in (('sam_lb_sample', fc - fm, float(case.get('phase_lb', 0))), ('sam_c_sample', fc, case['phase']),
+                            ('sam_ub_sample', fc + fm, float(case.get('phase_ub', 0)))):
+            tot = tot + _gen(name + suffix, _sens_at(case, f if eqz else fc), case['L'], float(case['pol']), i, float(case['offset']), fs, fc, fm,
                              1.0, ph)
         if not np.all(np.abs(tot - np.array(res['y'])) <= 1e-11 * max(res['sf'])):
             bad.append('sam_tone samples differ from the sum of the three generated components')
@@ -497,7 +597,8 @@ def _glue(case, res):
     elif k == 'stim' and case['type'] in ('click',) and 'y1' in res:
         cal = _mkcal(case['cal'])
         m = _gen('click_sample', float(cal.get_sens(0)), case['L'], 1.0)
-        if not all(abs(v - m) <= 1e-12 * abs(m) for v in res['y1']):
+        ctol = 1e-6 if case.get('kinds', {}).get('level') == 'np32' else 1e-12
+        if not all(abs(v - m) <= ctol * abs(m) for v in res['y1']):
             bad.append('click samples differ from the generated click_sample')
     elif k == 'stim' and case['type'] == 'BroadbandNoiseFactory' and case['cal'] is not None and 'y1' in res:
         # the factory's own bounds against the generated ones
@@ -549,10 +650,18 @@ def _oracle_stim(case, res):
             return f'{tag}: inverting the polarity changes the number of samples: {res["n"][0]} -> {res["n_neg"]}'
         if not res['neg_exact']:
             return f'{tag}: inverting the polarity does not negate every sample exactly'
+    P = case.get('par', {})
+    if t in ('chirp', 'ChirpFactory') and P.get('equalize') and P.get('mc') == 0 and P.get('window') == 'boxcar' \
+            and P.get('weighting') in (None, 'nan') and case['cal'] and case['cal']['kind'] == 'interp':
+        # max_correction = 0 dB clips every per-frequency scale factor to their mean: the equalized sweep has a flat envelope
+        if res['crest'] is None or not abs(res['crest'] - math.sqrt(2)) <= 0.02:
+            return (f'{tag}: with max_correction=0 the equalized chirp must have a flat envelope (crest factor sqrt 2), '
+                    f'it has {res["crest"]}')
     lv = res['level']
     if lv is not None:
         err_db = abs(20 * math.log10(lv['got'] / lv['want'])) if lv['got'] > 0 and lv['want'] > 0 else float('inf')
-        if not err_db <= lv['tol_db']:
+        tol_db = max(lv['tol_db'], 1e-4) if case.get('kinds', {}).get('level') == 'np32' else lv['tol_db']
+        if not err_db <= tol_db:
             return (f'{tag}: documented level definition ({lv["what"]}) reads {lv["got"]} V, the calibration asks for {lv["want"]} V: '
                     f'{err_db:.3f} dB apart (tolerance {lv["tol_db"]} dB)')
     return None
@@ -603,9 +712,22 @@ def _oracle_filter(case, res):
     return None
 
 
+def _oracle_reject(case, res):
+    if case['what'] in REJECTS:
+        if res['exc'] != 'ValueError':
+            return (f'{case["what"]}: a request the stimulus cannot honour at the requested level must be refused with ValueError; '
+                    f'got {res}')
+        return None
+    if res['exc'] is not None or not res['finite'] or res['n'] != 50:
+        return f'{case["what"]}: a legal request was not served: {res}'
+    return None
+
+
 def oracle(case, res):
     if case['kind'] == 'filter':
         return _oracle_filter(case, res)
+    if case['kind'] == 'reject':
+        return _oracle_reject(case, res)
     return _oracle_stim(case, res) if case['kind'] == 'stim' else _oracle_rms(case, res)
 
 
@@ -621,6 +743,9 @@ def distribution(cases, results):
     d = {'kinds': {}, 'types': {}, 'calibrations': {}, 'with_polarity': 0, 'level_judged': 0, 'weighting': 0}
     for c, r in zip(cases, results):
         d['kinds'][c['kind']] = d['kinds'].get(c['kind'], 0) + 1
+        for kk, vv in (c.get('kinds') or {}).items():
+            d.setdefault('arg_kinds', {}).setdefault(kk, {}).setdefault(vv, 0)
+            d['arg_kinds'][kk][vv] += 1
         ck = c['cal']['kind'] if c.get('cal') else 'none'
         if c['kind'] == 'filter':
             ck = 'n/a'
@@ -639,7 +764,7 @@ RATES = [25000.0, 100000.0, 195312.5]
 
 
 def _level(rng):
-    return rng.choice([float(rng.randint(-40, 140)), rng.uniform(-40, 140), 60.0, 94.0, -10.0, 120.0])
+    return rng.choice([float(rng.randint(-40, 140)), rng.uniform(-40, 140), 60.0, 94.0, -10.0, 120.0, 0.0])
 
 
 def _delta(rng):
@@ -674,6 +799,16 @@ def _cal_for(rng, which, fs, points):
     return None
 
 
+def _seed(rng):
+    return rng.choice([0, rng.randint(1, 99), rng.randint(1, 99)])       # 0 is a legal (falsy) seed
+
+
+def _kinds(rng, which, t):
+    """how the numbers are handed over: Python float / int, NumPy scalars; the level relation is the same for all"""
+    lv = rng.choice(['py', 'py', 'int', 'np64', 'np32']) if which is not None else rng.choice(['py', 'np64'])
+    return {'level': lv, 'pol': rng.choice(['int', 'float', 'npint']), 'fs': rng.choice(['float', 'int'])}
+
+
 def _stim_case(rng, t, which, fs=None):
     fs = fs or rng.choice(RATES)
     n = rng.choice([37, 64, 200, 501])
@@ -681,13 +816,15 @@ def _stim_case(rng, t, which, fs=None):
     points = [0.0, 1000.0]
     if t in ('tone', 'tone_duration', 'ToneFactory', 'ramped_tone', 'cos2_tone'):
         P = {'f': rng.choice([1000.0, 2000.0, float(rng.randint(100, int(fs / 2) - 100))]), 'phase': rng.uniform(-3, 3), 'n': n,
-             'offset': rng.choice([0, 17])}
+             'offset': rng.choice([0, 17, -5]), 'frac': rng.choice([0.0, 0.3, -0.3])}
         points = [P['f']]
     elif t in ('sam_tone', 'SAMToneFactory'):
         fc = float(rng.randint(2000, int(fs / 2) - 2000))
         fm = float(rng.choice([40, 110, 1000]))
         P = {'fc': fc, 'fm': fm, 'phase': rng.uniform(-3, 3), 'n': n, 'eq_power': rng.random() < 0.7,
-             'equalize': rng.random() < 0.7 or which is None}
+             'equalize': rng.random() < 0.7 or which is None, 'phase_lb': rng.choice([0, rng.uniform(-3, 3)]),
+             'phase_ub': rng.choice([0, rng.uniform(-3, 3)]), 'use_duration': t == 'sam_tone' and rng.random() < 0.35,
+             'frac': rng.choice([0.0, 0.3, -0.3])}
         points = [fc - fm, fc, fc + fm]
     elif t in ('chirp', 'ChirpFactory'):
         f0 = float(rng.randint(500, 4000))
@@ -696,8 +833,10 @@ def _stim_case(rng, t, which, fs=None):
             f1 = f0 + 6.0
         P = {'f0': f0, 'f1': f1, 'dur': rng.choice([0.002, 0.01]), 'window': rng.choice(['boxcar', 'hann']),
              'equalize': which in ('interp', 'flat') and rng.random() < 0.4}
-        if t == 'chirp' and which is not None and rng.random() < 0.3:
-            P['weighting'] = 'mouse'
+        if which is not None and rng.random() < 0.4:
+            P['weighting'] = rng.choice(['mouse', 'nan'])
+        if P['equalize']:
+            P['mc'] = rng.choice(['inf', 'none', 0, 1.0, 6.0])
         points = list(np.arange(f0, f1))
     elif t == 'click':
         P = {'dur': rng.choice([0.0001, 0.00029, 0.001])}
@@ -705,28 +844,35 @@ def _stim_case(rng, t, which, fs=None):
     elif t in ('bandlimited_click', 'BandlimitedClickFactory'):
         P = {'flb': float(rng.choice([2000, 4000])), 'fub': float(rng.choice([8000, 10000])), 'window': rng.choice([0.002, 0.01]),
              'unit': rng.choice(['rms', 'peak']) if t == 'bandlimited_click' else 'rms', 'equalize': which == 'interp' and rng.random() < 0.4}
-        if t == 'bandlimited_click' and which is not None and rng.random() < 0.3:
-            P['weighting'] = 'mouse'
+        if which is not None and rng.random() < 0.4:
+            P['weighting'] = rng.choice(['mouse', 'nan'])
+        if P['equalize']:
+            P['mc'] = rng.choice(['inf', 'none', 0, 3.0])
     elif t in ('broadband_noise', 'BroadbandNoiseFactory', 'gate_noise', 'sam_env_noise'):
-        P = {'dur': 0.2 if t == 'broadband_noise' else 0.01, 'seed': rng.randint(1, 99), 'n': n, 'fm': 1000.0}
+        P = {'dur': 0.2 if t == 'broadband_noise' else 0.01, 'seed': _seed(rng), 'n': n, 'fm': 1000.0}
     elif t == 'bandlimited_noise':
         fs = 100000.0
-        P = {'fl': rng.choice([1000.0, 2000.0, 4000.0]), 'fh': rng.choice([6000.0, 8000.0]), 'dur': 0.2, 'seed': rng.randint(1, 99)}
+        P = {'fl': rng.choice([1000.0, 2000.0, 4000.0]), 'fh': rng.choice([6000.0, 8000.0]), 'dur': 0.2, 'seed': _seed(rng)}
     elif t == 'BandlimitedNoiseFactory':
         fs = 100000.0
         fl, fh = rng.choice([(2000.0, 8000.0), (4000.0, 8000.0), (4000.0, 6000.0)])
-        P = {'fl': fl, 'fh': fh, 'n': rng.choice([64, 300]), 'seed': rng.randint(1, 99), 'discard': rng.random() < 0.5,
+        P = {'fl': fl, 'fh': fh, 'n': rng.choice([64, 300]), 'seed': _seed(rng), 'discard': rng.random() < 0.5,
              'rolloff': rng.choice([1, 2]), 'pass_att': rng.choice([1, 3]), 'stop_att': rng.choice([80, 60])}
     elif t == 'bandlimited_fir_noise':
-        P = {'fl': 2000.0, 'fh': rng.choice([4000.0, 8000.0]), 'dur': 0.005, 'ntaps': rng.choice([201, 101]), 'seed': rng.randint(1, 99),
+        P = {'fl': 2000.0, 'fh': rng.choice([4000.0, 8000.0]), 'dur': 0.005, 'ntaps': rng.choice([201, 101]), 'seed': _seed(rng),
              'equalize': rng.random() < 0.5, 'window': rng.choice(['hann', 'hamming', 'blackman']),
              'max_correction': rng.choice([None, 6.0, 20.0])}         # None: the default np.inf
         if which is not None and rng.random() < 0.3:
             P['weighting'] = 'mouse'
+    elif t == 'bandlimited_fir_noise_fn':
+        P = {'fl': 2000.0, 'fh': rng.choice([4000.0, 8000.0]), 'dur': 0.004, 'ntaps': 201, 'seed': _seed(rng),
+             'equalize': rng.random() < 0.6, 'window': rng.choice(['hann', 'hamming'])}
+    elif t == 'ShapedNoiseFactory':
+        P = {'dur': 0.004, 'ntaps': 201, 'seed': _seed(rng), 'window': rng.choice(['hann', 'blackman'])}
     elif t == 'shaped_noise':
-        P = {'dur': 0.2, 'ntaps': 1001, 'seed': rng.randint(1, 99), 'window': rng.choice(['hann', 'hamming'])}
+        P = {'dur': 0.2, 'ntaps': 1001, 'seed': _seed(rng), 'window': rng.choice(['hann', 'hamming'])}
     elif t == 'notch_noise':
-        P = {'f': rng.choice([4000.0, 8000.0]), 'q': rng.choice([1.33, 5.0]), 'dur': 0.2, 'seed': rng.randint(1, 99)}
+        P = {'f': rng.choice([4000.0, 8000.0]), 'q': rng.choice([1.33, 5.0]), 'dur': 0.2, 'seed': _seed(rng)}
     elif t in ('wav', 'WavFileFactory'):
         file_fs = rng.choice([25000.0, 100000.0])
         P = {'file': rng.choice(['i16', 'f32']), 'file_fs': file_fs, 'out_fs': rng.choice([file_fs, file_fs, file_fs / 2]),
@@ -740,7 +886,13 @@ def _stim_case(rng, t, which, fs=None):
     L = _level(rng)
     if which is None:
         L = float(10 ** rng.uniform(-3, 1))          # without calibration the level is a linear amplitude
-    return {'kind': 'stim', 'type': t, 'fs': fs, 'cal': cal, 'L': L, 'd': _delta(rng), 'par': P}
+    d = _delta(rng)
+    K = _kinds(rng, which, t)
+    if K['level'] == 'int':
+        L, d = float(rng.choice([0, 0, rng.randint(-40, 140)])), float(rng.choice([-7, 6, 13]))
+    elif K['level'] == 'np32':
+        L, d = rng.randint(-80, 280) / 2, rng.choice([-6.5, 6.0, 13.5])
+    return {'kind': 'stim', 'type': t, 'fs': fs, 'cal': cal, 'L': L, 'd': d, 'par': P, 'kinds': K}
 
 
 # which calibrations each stimulus can be generated with (None = no calibration argument / level as amplitude)
@@ -750,7 +902,9 @@ PLAN = {
     'SAMToneFactory': ['flat', 'interp', 'point'], 'chirp': ['flat', 'interp', 'point', None], 'ChirpFactory': ['flat', 'interp'],
     'click': ['flat', 'interp', 'point'], 'bandlimited_click': ['flat', 'interp', None], 'BandlimitedClickFactory': ['flat', 'interp'],
     'broadband_noise': ['flat', 'interp', None], 'BroadbandNoiseFactory': ['flat', 'interp', None],
-    'bandlimited_noise': ['flat', 'interp', None], 'BandlimitedNoiseFactory': ['flat', 'interp', None], 'bandlimited_fir_noise': ['flat', 'interp'], 'shaped_noise': ['flat', 'interp', None],
+    'bandlimited_noise': ['flat', 'interp', None], 'BandlimitedNoiseFactory': ['flat', 'interp', None],
+    'bandlimited_fir_noise': ['flat', 'interp'], 'bandlimited_fir_noise_fn': ['flat', 'interp'], 'shaped_noise': ['flat', 'interp', None],
+    'ShapedNoiseFactory': ['flat', 'interp', None],
     'notch_noise': ['flat', 'interp', None], 'wav': ['flat', 'interp', 'point'], 'WavFileFactory': ['flat', 'point'],
     'SquareWaveFactory': [None], 'cos2_tone': ['flat', 'point'], 'gate_noise': ['flat', 'interp'], 'sam_env_noise': ['flat'],
     'repeat_click': ['flat', 'point'],
@@ -762,7 +916,12 @@ def _rms_case(rng, kind, which):
     fs = rng.choice(RATES)
     N = rng.choice([8, 9, 16, 25, 64, 100, 257, 400, rng.randint(8, 400)])
     case = {'kind': kind, 'fs': fs, 'N': N, 'L': _level(rng), 'pol': rng.choice([1, -1]), 'phase': rng.uniform(-3, 3),
-            'offset': rng.choice([0, 0, 5, 123])}
+            'offset': rng.choice([0, 0, 5, 123, -7]),
+            'kinds': {'level': rng.choice(['py', 'py', 'int', 'np64']), 'pol': rng.choice(['int', 'float', 'npint'])}}
+    if case['kinds']['level'] == 'int':
+        case['L'] = float(rng.choice([0, rng.randint(-40, 140)]))
+    if rng.random() < 0.3:
+        case.update(factory=True, offset=0)             # the factory twins start at sample 0
     if kind == 'tone_rms':
         case['k'] = rng.randint(1, (N - 1) // 2)
         pts = [case['k'] * fs / N]
@@ -773,7 +932,8 @@ def _rms_case(rng, kind, which):
         kc = rng.randint(km + 1, max(km + 1, (N - 1) // 2 - km))
         if 2 * (kc + km) >= N:
             kc, km = 3, 1
-        case.update(kc=kc, km=km, eq_power=rng.random() < 0.7)
+        case.update(kc=kc, km=km, eq_power=rng.random() < 0.7, equalize=rng.random() < 0.7,
+                    phase_lb=rng.choice([0, rng.uniform(-3, 3)]), phase_ub=rng.choice([0, rng.uniform(-3, 3)]))
         fc_, fm_ = kc * fs / N, km * fs / N
         pts = [fc_ + fm_ * -1, fc_ + fm_ * 0, fc_ + fm_ * 1]
     if which == 'flat':
@@ -836,6 +996,33 @@ def cases(tier, rng):
             reps = (1 if t in SLOW else 3) if quick else (6 if t in SLOW else 30)
             for _ in range(reps):
                 yield _stim_case(rng, t, which)
+    for what in list(REJECTS) + list(ACCEPTS):
+        yield {'kind': 'reject', 'what': what, 'cal': {'kind': 'flat', 's': 93.37, 'g': 0.0}}
+    # every kind of level / polarity / rate argument, the falsy seed, the seconds-based twins with off-grid durations and the
+    # boundary values of max_correction, whatever the draws above chose
+    for lv in ('int', 'np64', 'np32'):
+        for pk in ('float', 'npint'):
+            for t in ('tone', 'sam_tone', 'click', 'BroadbandNoiseFactory'):
+                c = _stim_case(rng, t, 'flat', fs=100000.0)
+                c['kinds'] = {'level': lv, 'pol': pk, 'fs': 'int'}
+                c['L'], c['d'] = {'int': (0.0, 6.0), 'np64': (0.0, 13.7), 'np32': (60.5, 6.5)}[lv]
+                if 'seed' in c['par']:
+                    c['par']['seed'] = 0
+                yield c
+    for t in ('tone_duration', 'sam_tone'):
+        for frac in (0.3, -0.3):
+            c = _stim_case(rng, t, 'interp')
+            c['par'].update(frac=frac, use_duration=True)
+            yield c
+    for t in ('chirp', 'ChirpFactory'):
+        for mc in (0, 'none', 1.0):
+            c = _stim_case(rng, t, 'interp', fs=100000.0)
+            c['par'].update(equalize=True, mc=mc, window='boxcar', dur=0.01, weighting=None, f1=c['par']['f0'] + 6000.0)
+            yield c
+    for t in ('broadband_noise', 'bandlimited_fir_noise', 'bandlimited_fir_noise_fn', 'ShapedNoiseFactory', 'notch_noise'):
+        c = _stim_case(rng, t, 'flat')
+        c['par']['seed'] = 0
+        yield c
     # both values of the start-up option of the IIR noise factory, whatever the draws above chose
     for discard in (False, True):
         for which in ('flat', None):
@@ -866,7 +1053,7 @@ def _filter_case(rng):
                 'x': [rng.uniform(-1, 1) for _ in range(rng.randint(1, 12))], 'z': z,
                 'c': rng.choice([-1.0, 2.0, 10 ** (rng.uniform(-30, 30) / 20)])}
     return {'kind': 'filter', 'what': 'notch', 'fs': rng.choice(RATES), 'f': rng.choice([2000.0, 4000.0, 8000.0]),
-            'q': rng.choice([1.33, 5.0]), 'level': float(10 ** rng.uniform(-3, 1)), 'seed': rng.randint(1, 99),
+            'q': rng.choice([1.33, 5.0]), 'level': float(10 ** rng.uniform(-3, 1)), 'seed': _seed(rng),
             'pol': rng.choice([1, -1]), 'n': rng.randint(4, 40)}
 
 
